@@ -129,9 +129,12 @@ def run(tier):
             add({"kind": "mean", "mean": sc(mean_own / max(1.0, abs(ref.mean()))), "ref": sc(ref.mean() / max(1.0, abs(ref.mean()))),
                  "tol": sc(2e-3)}, fam, par, f"mean of the law {mean_own}, documented {ref.mean()}")
             # ---- intervals: P((a, b]) = F(b) - F(a) where F is the law's own cumulative function ----
-            for _ in range(8 if tier == "quick" else 40):
+            for j in range(10 if tier == "quick" else 44):
                 a = rnd.uniform(max(lo, 0 if discrete_impl else lo), hi * 0.7 if hi > 0 else hi)
                 b = a + rnd.uniform(0.01, 0.5) * (hi - lo)
+                if j < 2 and lo <= 0 <= hi:
+                    a = 0.0          # the first interval of a block starts at the lower end 0 (a fresh RememberAdd)
+                    b = [ref.mean(), max(1.0, 0.3 * ref.mean())][j]
                 if discrete_impl:
                     a, b = float(int(a)), float(int(b) + 1)
                 ra = RememberAdd(a)
@@ -209,7 +212,10 @@ def run(tier):
                 v.violation(f"C11:text-form:{fam}", f"str(get_distribution({t!r})) = {str(d)!r} does not reproduce the parameters", {"text": t})
             if len(samples) < 6:
                 samples.append({"distribution": t, "total": total, "mean": mean_own, "documented_mean": ref.mean()})
-    for bad in ("gaus(10, 2)", "normal(5, 1)", "Gauss(5,1)", "schulz(5,1)", "lognormal(5, 1.2)", "flory(0.1)", "exp(3)", ""):
+    for bad in ("gaus(10, 2)", "normal(5, 1)", "Gauss(5,1)", "schulz(5,1)", "lognormal(5, 1.2)", "flory(0.1)", "exp(3)", "",
+                # unknown names that merely BEGIN with a known one
+                "gaussian(100, 20)", "gauss_trunc(100, 20)", "uniform_int(1, 5)", "poissonian(65)", "poisson_binomial(65)", "log_normal10(50, 1.1)",
+                "schulz_zimm_flory(500, 400)", "flory_schulz_mod(0.1)"):
         try:
             get_distribution(bad)
             v.violation("C11:unknown-name-accepted", f"get_distribution({bad!r}) is accepted", {"text": bad})
